@@ -60,6 +60,10 @@ T = [
          fn="Value::deep_copy / StructObject::new", bounded=B,
          text="records mixing scalar and heap fields in ONE struct - struct{Int, string}, struct{Int, array[Float;1], string} "
               "(Job{id, items, label}), tuple{Bool, struct{string}}: " + COPY),
+    dict(h=_h("copy_struct_var", "copy_struct_var_arr", "copy_arr_struct", "copy_arr_var", "copy_var_str", "copy_var_arr", "copy_var_var"),
+         id="C08.deep_copy.container_pairs.post", props=["C08"], fn="Value::deep_copy", bounded=B,
+         text="the remaining (container kind x element kind) pairs - struct{variant, scalar}, struct{variant(array[1]), scalar} (a record holding an "
+              "option<array>), array[struct], array[variant], variant(string), variant(array[1]), variant(variant): " + COPY),
     dict(h=_h("copy_chan"), id="C08.deep_copy.channel.post", props=["C08", "C09"], fn="Value::deep_copy / ChannelObject::copy",
          bounded=B,
          text="channel: a NEW ChannelObject owned by B whose queue is the SAME queue (Arc::ptr_eq); a value written through the "
